@@ -468,6 +468,7 @@ def sweep_batch(rep, scr, impl, consts, pid, var, tier, seed, md=None):
     groups = [('C', sweep.ext_cases(seed, tier, consts, pid))] if pid != 'C07' else []
     if pid in ('C01', 'C02', 'C04', 'C07'): groups.append(('C', sweep.overlap_cases(seed, tier, consts)))
     if pid in ('C01', 'C02', 'C03', 'C04', 'C05', 'C06', 'C08'): groups.append(('C', sweep.misc_cases(seed, tier, consts)))
+    if pid in ('C01', 'C02'): groups.append(('C', sweep.fmt_read_cases(seed, tier, consts)))
     if pid in ('C01', 'C03', 'C04', 'C05', 'C08'):
         fc = sweep.fmt_cases(seed, tier, consts)
         groups.append(('C', fc))
